@@ -49,8 +49,9 @@ func partStepThrough(c *check.Ctx, a *acc, victims []string) {
 				cases = append(cases, sc)
 				if (v == "join" || v == "switch") && (sc.Site == "websocket.handler.send" || sc.Site == "websocket.responseSender.Send") {
 					// a message built from shared state and parked before it is marshalled: what
-					// a concurrent writer does to it depends on map iteration order - four runs
-					cases = append(cases, sc, sc, sc)
+					// a concurrent writer does to it depends on map iteration order (about one
+					// run in four shows it) - eight runs
+					cases = append(cases, sc, sc, sc, sc, sc, sc, sc)
 				}
 				// fault at that point: the victim's client resets its connection while the
 				// server is parked there (first pass of each point; a third of them in the quick tier)
